@@ -362,3 +362,62 @@ func authdResolveLocal(f *engine.Fn, e ast.Expr) ast.Expr {
 	}
 	return e
 }
+
+// authdFactImplied: does the fact fc (holding in f) establish `want`, either
+// itself or because it is a call of a package-local boolean predicate known to
+// be true all of whose true-returns establish it (helpers followed up to depth)?
+// want receives the function the fact lives in.
+func authdFactImplied(f *engine.Fn, fc authdFact, want func(fn *engine.Fn, fc authdFact) bool, depth int) bool {
+	if want(f, fc) {
+		return true
+	}
+	if fc.Neg || depth <= 0 {
+		return false
+	}
+	call, ok := ast.Unparen(fc.E).(*ast.CallExpr)
+	if !ok {
+		return false
+	}
+	st := f.SiteOf(call)
+	if st == nil {
+		return false
+	}
+	fn, _ := st.Callee.(*types.Func)
+	h := f.Prog.FnOf(fn)
+	if h == nil || h == f {
+		return false
+	}
+	rets := authdReturns(h)
+	nTrue := 0
+	for _, rs := range rets {
+		if len(rs.Results) != 1 {
+			return false
+		}
+		bv, isLit := authdIsBoolLit(h.Info(), rs.Results[0])
+		if isLit && !bv {
+			continue
+		}
+		nTrue++
+		var facts []authdFact
+		if rst := h.SiteOf(rs); rst != nil {
+			for _, gt := range h.Graph().Gates(rst) {
+				facts = append(facts, authdFacts(gt)...)
+			}
+		}
+		if !isLit {
+			for _, cj := range engine.Conjuncts(rs.Results[0], token.LAND) {
+				facts = append(facts, authdStripNot(cj, false))
+			}
+		}
+		found := false
+		for _, hf := range facts {
+			if authdFactImplied(h, hf, want, depth-1) {
+				found = true
+			}
+		}
+		if !found {
+			return false
+		}
+	}
+	return nTrue > 0
+}
